@@ -20,6 +20,29 @@ from mirsym import (Ptr, Struct, Enum, Opaque, FnItem, MOVED, UNINIT, PathEnd, U
 MAXC = (1 << 63) - 3
 
 
+def leaf_type(ty):
+    """last path segment of a type, generics stripped: `a::B<X>::f::Guard<'_, T>` -> `Guard`"""
+    out, depth = [], 0
+    for i, ch in enumerate(ty.strip()):
+        if ch == '<':
+            depth += 1
+        elif ch == '>' and (i == 0 or ty[i - 1] != '-'):
+            depth -= 1
+        elif depth == 0:
+            out.append(ch)
+    return ''.join(out).split('::')[-1].strip()
+
+
+def unwrap_ptr(v):
+    """pointer newtypes built as aggregates (NonNull { pointer }, Unique, ...) are transparent"""
+    while isinstance(v, Struct) and len(v.fields) >= 1 and not isinstance(v, Ptr):
+        if isinstance(v.fields[0], (Ptr, Struct)) and re.search(r'NonNull|Unique|ManuallyDrop', v.ty or ''):
+            v = v.fields[0]
+        else:
+            break
+    return v
+
+
 def mptr(root, path=(), meta=None):
     """abstract pointer that may carry slice-length metadata (fat pointer)"""
     p = Ptr(root, path)
@@ -66,6 +89,7 @@ class UInterp(mirsym.Interp):
 
     # ------------------------------------------------------------------ helpers
     def alloc_of(s, ptr):
+        ptr = unwrap_ptr(ptr)
         if isinstance(ptr, Ptr) and ptr.root[0] == 'H':
             return ptr.root[1]
         raise Unsupported(f'not a heap pointer: {ptr!r}')
@@ -120,13 +144,33 @@ class UInterp(mirsym.Interp):
             return cont(st, args[0])
         if re.search(r'<ManuallyDrop as (Deref|DerefMut)>::(deref|deref_mut)$', n):
             return cont(st, args[0])
-        if n.endswith('ptr::read'):
+        if n.endswith('ptr::read') or re.search(r'(mut_ptr|const_ptr)::read$', n):
             return cont(st, copy.deepcopy(st.load(args[0])))
-        if n.endswith('ptr::write'):
+        if n.endswith('ptr::write') or re.search(r'mut_ptr::write$', n):
             st.store(args[0], args[1])
             return cont(st, Opaque('unit'))
         if n.endswith('mem::forget'):
             return cont(st, Opaque('unit'))
+        if n.endswith('mem::drop'):
+            ty = s.generic_arg(getattr(s, '_raw_callee', ''))
+            st.nheap += 1
+            root = ('T', st.nheap)
+            st.mem[root] = args[0]
+            return s.drop_value(st, ty, Ptr(root), 0, lambda st2: cont(st2, Opaque('unit')), unw)
+        if n.endswith('Layout::new') or n.endswith('Layout::for_value'):
+            return cont(st, Opaque('layout'))
+        if n.endswith('alloc::dealloc'):
+            p0 = args[0]
+            if isinstance(p0, Ptr) and p0.root[0] == 'H':
+                st.freed.add(p0.root[1])
+                if meta_of(p0) is not None:
+                    st.free_meta[p0.root[1]] = meta_of(p0)
+                st.trace.append(f'free {p0.root[1]}')
+            return cont(st, Opaque('unit'))
+        if re.search(r'(mut_ptr|const_ptr)::(cast_mut|cast_const)$', n):
+            return cont(st, args[0])
+        if n.endswith('ManuallyDrop::take'):
+            return cont(st, copy.deepcopy(st.load(args[0])))
         if n.endswith('mem::replace'):
             old = copy.deepcopy(st.load(args[0]))
             st.store(args[0], args[1])
@@ -156,6 +200,12 @@ class UInterp(mirsym.Interp):
             k = args[1]
             k = simplify(k).as_long() if not isinstance(k, int) else k
             p0 = args[0]
+            try:
+                tgt = st.load(p0)
+            except Exception:
+                tgt = None
+            if isinstance(tgt, Struct) and tgt.ty == 'slice':     # pointer to the slice as a whole: index into it
+                return cont(st, Ptr(p0.root, p0.path + (k,)))
             return cont(st, Ptr(p0.root, p0.path[:-1] + (p0.path[-1] + k,)))
         if re.search(r'Range as IntoIterator>::into_iter$', n):
             return cont(st, args[0])
@@ -183,7 +233,7 @@ class UInterp(mirsym.Interp):
         if n == 'thin_to_thick':
             # fat pointer re-synthesised from the length RECORDED in the allocation's header
             t = st.load(args[0])
-            thin = t.fields[0]
+            thin = unwrap_ptr(t.fields[0])
             try:
                 rec = st.load(Ptr(thin.root, (1, 0, 1)))
             except Exception:
@@ -315,23 +365,17 @@ class UInterp(mirsym.Interp):
         ty = ty.strip()
         if ty.startswith('std::mem::ManuallyDrop<') or ty.startswith('&') or ty.startswith('*'):
             return cont(st)
-        if ty.startswith('arc::Arc<'):
+        leaf = leaf_type(ty)
+        if leaf == 'Arc':
             fn = [f for f in s.fns if f.name.split('::')[-1] == 'drop' and f.params[0][1].startswith('&mut arc::Arc<')][0]
             return s.call_fn(st, fn, [ptr], depth, lambda st2, r: cont(st2), unw)
-        if ty.startswith('unique_arc::UniqueArc<') or ty.startswith('offset_arc::OffsetArc<') or 'ThinArc<' in ty and 'DropGuard' not in ty:
-            # find the type's own Drop impl in the dump, else treat as a transparent wrapper around Arc
-            head = ty.split('<')[0].split('::')[-1]
-            cands = [f for f in s.fns if f.name.split('::')[-1] == 'drop' and f.params and head + '<' in f.params[0][1] and 'DropGuard' not in f.params[0][1]]
+        if leaf in ('UniqueArc', 'OffsetArc', 'ThinArc', 'ArcUnion'):
+            # the type's own Drop impl if the dump has one, else a transparent wrapper around Arc
+            cands = [f for f in s.fns if f.name.split('::')[-1] == 'drop' and f.params and leaf_type(re.sub(r"^&(mut )?", '', f.params[0][1])) == leaf]
             if cands:
                 return s.call_fn(st, cands[0], [ptr], depth, lambda st2, r: cont(st2), unw)
             return s.drop_value(st, 'arc::Arc<T>', Ptr(ptr.root, ptr.path + (0,)), depth, cont, unw)
-        if 'DropGuard<' in ty:
-            cands = [f for f in s.fns if f.name.split('::')[-1] == 'drop' and f.params and 'DropGuard<' in f.params[0][1]]
-            if len(cands) != 1:
-                raise Unsupported('Drop impl of DropGuard not found exactly once')
-            # user Drop impl, then the fields (ManuallyDrop / &mut: nothing)
-            return s.call_fn(st, cands[0], [ptr], depth, lambda st2, r: cont(st2), unw)
-        if ty.startswith('std::boxed::Box<arc::ArcInner<'):
+        if re.match(r'^(std::boxed::)?Box<arc::ArcInner<', ty):
             b = st.load(ptr)
             x = b.root[1]
             st.freed.add(x)
@@ -358,8 +402,8 @@ class UInterp(mirsym.Interp):
                 st.mem[key] = True
                 st.trace.append(f'{v.what} destroyed (outside the allocation)')
             return cont(st)      # user value: its own destructor is outside the model
-        leafty = ty.split('<')[0].split('::')[-1]
-        cands = [f for f in s.fns if f.name.split('::')[-1] == 'drop' and f.params and re.search(r'&mut (\w+::)*' + re.escape(leafty) + r'\b', f.params[0][1])]
+        leafty = leaf_type(ty)
+        cands = [f for f in s.fns if f.name.split('::')[-1] == 'drop' and f.params and leaf_type(re.sub(r"^&(mut )?", '', f.params[0][1])) == leafty]
         if len(cands) == 1:
             return s.call_fn(st, cands[0], [ptr], depth, lambda st2, r: cont(st2), unw)
         raise Unsupported(f'drop glue for {ty}')
@@ -500,6 +544,7 @@ class UInterp(mirsym.Interp):
                 return s.call_fn(st, tgt[0], args, depth + 1, after, my_unw)
             if kind == 'generic':
                 return s.call_generic(st, tgt[0], tgt[1], args, after, my_unw, callee)
+            s._raw_callee = callee
             return s.call_extern(st, tgt[0], args, after, fn, my_unw)
         raise Unsupported(f'terminator {t!r} in {fn.name}')
 
@@ -568,8 +613,9 @@ def has_uninit(v):
 def handles_in(v, out):
     """collect (allocation) for every owning handle value reachable in a caller-visible value"""
     if isinstance(v, Struct):
-        if v.fields and isinstance(v.fields[0], Ptr) and v.fields[0].root[0] == 'H' and re.search(r'Arc', v.ty or ''):
-            out.append(v.fields[0].root[1])
+        f0 = unwrap_ptr(v.fields[0]) if v.fields else None
+        if isinstance(f0, Ptr) and f0.root[0] == 'H' and re.search(r'Arc', v.ty or ''):
+            out.append(f0.root[1])
             return
         for f in v.fields:
             handles_in(f, out)
